@@ -14,6 +14,7 @@ RULE = (
     "rejected and one accepted. Spec oracle = reference alternation automaton (python): out-of-turn calls fail, hand "
     "the message back intact and write nothing; every reply appears on the wire of the client whose request the last "
     "recv returned, and on no other; per client, replies are in request order."
+    ' Family transient-write: a TRANSIENT write error (`wrerr1`: exactly one write on the connection fails — Interrupted, WouldBlock, TimedOut, BrokenPipe) while a request (REQ, 1..2 servers) or a reply (REP, two clients) is written: every request / reply is on the wires at most once, and lock-step goes on.'
 )
 ASSUMPTIONS = ["a pending recv is abandoned before the next call on the same socket (one &mut borrow at a time)"]
 TRUSTED = ["scc::HashMap get_async resolves immediately when uncontended"]
@@ -136,6 +137,62 @@ def req_failed_send_cases(n0):
     return out
 
 
+TRANSIENT = ("Interrupted", "WouldBlock", "TimedOut", "BrokenPipe")
+
+
+def transient_write_cases(n0):
+    """a TRANSIENT write error (`wrerr1`: exactly one write on the connection fails — EINTR, a timeout) while a request or
+    a reply is being written: whatever the socket makes of the error (report it, forget the peer), a request / reply is
+    on the wire AT MOST ONCE, and lock-step goes on with whoever is still there"""
+    out = []
+    n = n0
+    for kind in TRANSIENT:
+        # REQ: the first request hits the error
+        for nsrv in (1, 2):
+            sc = wg.Script()
+            sc.sock(1, "REQ")
+            for k in range(1, nsrv + 1):
+                sc.attach(1, k, "REP", b"s%d" % k)
+                sc.add(f"wire {k}")
+            sc.add(f"wrerr1 1 {kind}")
+            for body in (b"one", b"two"):
+                f = sc.fut()
+                sc.add(f"send {f} 1 {wg.mtok([body])}", f"poll {f}", f"drop {f}")
+                for k in range(1, nsrv + 1):
+                    sc.add(f"wire {k}")
+                for k in range(1, nsrv + 1):
+                    sc.reveal_msg(k, [b"", b"re-" + body])
+                g = sc.fut()
+                sc.add(f"recv {g} 1", f"poll {g}", f"drop {g}")
+            c = sc.case(f"transient-REQ-{kind}#{n}", ["transient-write"])
+            c.expect = ("transient", nsrv, [[b"", b"one"], [b"", b"two"]])
+            out.append(c)
+            n += 1
+        # REP: the reply hits the error; a second client goes on
+        sc = wg.Script()
+        sc.sock(1, "REP")
+        sc.attach(1, 1, "REQ", b"c1")
+        sc.attach(1, 2, "REQ", b"c2")
+        sc.add("wire 1", "wire 2")
+        sc.reveal_msg(1, [b"", b"q1"])
+        g = sc.fut()
+        sc.add(f"recv {g} 1", f"poll {g}", f"drop {g}", f"wrerr1 1 {kind}")
+        f = sc.fut()
+        sc.add(f"send {f} 1 {wg.mtok([b'a1'])}", f"poll {f}", f"drop {f}", "wire 1", "wire 2")
+        sc.reveal_msg(2, [b"", b"q2"])
+        sc.reveal_msg(1, [b"", b"q3"])
+        for body in (b"a2", b"a3"):
+            g = sc.fut()
+            sc.add(f"recv {g} 1", f"poll {g}", f"drop {g}")
+            f = sc.fut()
+            sc.add(f"send {f} 1 {wg.mtok([body])}", f"poll {f}", f"drop {f}", "wire 1", "wire 2")
+        c = sc.case(f"transient-REP-{kind}#{n}", ["transient-write"])
+        c.expect = ("transient", 2, [[b"", b"a1"], [b"", b"a2"], [b"", b"a3"]])
+        out.append(c)
+        n += 1
+    return out
+
+
 def rep_same_identity_cases(n0):
     """two connections announce the SAME identity to one REP (a client that reconnects before its old connection's end was
     seen; two clients configured alike): the reply goes to the connection the request CAME FROM — the newest one under
@@ -171,6 +228,7 @@ def rep_same_identity_cases(n0):
 def cases(tier, rng):
     out = gen.corpus(ID)
     out += rep_same_identity_cases(920000)
+    out += transient_write_cases(930000)
     out += req_failed_send_cases(910000)
     # safety net: seeded random schedules of these socket types over scripted pipes (partial reads, back-pressure,
     # errors, futures polled once or twice and then ABANDONED, sockets dropped) — every line predicted by the World model
@@ -214,6 +272,18 @@ def oracle(case, lines):
             return f"the reply to a request that came from the NEW connection was written to the OLD connection of that identity: {w1[:80]}"
         if rg != "ready ok" or w2 != "wire " + wg.show_wire([[b"", b"rb1"]]):
             return f"the connection the request came from did not get the reply: send={rg[:40]} wire={w2[:60]}"
+        return None
+    if case.expect[0] == "transient":
+        _, npipes, msgs = case.expect
+        for m in msgs:
+            enc = zmtp.message(m).hex()
+            total = 0
+            for k in range(1, npipes + 1):
+                w = "".join(l.split(" ", 1)[1] for op, l in res if op == f"wire {k}" and l != "wire .")
+                total += w.count(enc)
+            if total > 1:
+                return (f"the message {wg.show_frames(m)} was written {total} times — after a transient write error the bytes "
+                        "already encoded were encoded again")
         return None
     if case.expect[0] == "req-failed-send":
         _, nsrv, then = case.expect
